@@ -79,8 +79,16 @@ Opts(vals, keys, refs, ka, va, expand) ==
 Terms(inv, op, term) == [inv |-> inv, op |-> op, term |-> term]
 
 (***************************************************************************)
-(* Expression -> terms (get_search_term): the expression is parsed as the  *)
-(* search segment "[*EXPR]"; result [ok, inv, op, term].                   *)
+(* Expression -> terms (get_search_term): the expression goes through the  *)
+(* path parser as the search segment "[*EXPR]" and the terms are read from *)
+(* the ESCAPED parse (YPathParser.Parse with escapes stripped): the term   *)
+(* is the text after the operator with every backslash escape resolved.    *)
+(* Result [ok, inv, op, term].                                             *)
+(* So one term has two spellings: Expr(T), the text itself (only when it   *)
+(* holds nothing the parser treats specially), and ExprEsc(T), with every  *)
+(* character other than a letter or digit backslash-escaped.  Inside the   *)
+(* delimiters of a RegEx a backslash belongs to the expression, so "=~"    *)
+(* has the first spelling only.                                            *)
 (***************************************************************************)
 OpStart == {"=", "^", "$", "%", ">", "<", "~"}      \* PathSearchMethods.is_operator on the first symbol, or "!"
 ExprTerms(expr) ==
@@ -90,6 +98,11 @@ ExprTerms(expr) ==
   ELSE LET p == Parse("[*" \o expr \o "]", "auto", TRUE) IN
        IF p.out # "done" \/ Len(p.segs) = 0 \/ p.segs[1].ty # "SEARCH" THEN bad
        ELSE [ok |-> TRUE, inv |-> p.segs[1].inv, op |-> p.segs[1].op, term |-> p.segs[1].term]
+AlNum == Digits \cup Uppers \cup {LowerOf[c] : c \in Uppers}
+RECURSIVE EscTerm(_)
+EscTerm(t) == IF t = "" THEN "" ELSE (IF Ch(t, 1) \in AlNum THEN "" ELSE "\\") \o Ch(t, 1) \o EscTerm(Tail(t))
+HasPunct(t) == \E i \in 1..Len(t) : Ch(t, i) \notin AlNum
+ExprEsc(T) == (IF T.inv THEN "!" ELSE "") \o T.op \o EscTerm(T.term)          \* defined for T.op # "=~"
 \* how a user writes terms as an expression (a RegEx term between delimiters)
 Expr(T) == (IF T.inv THEN "!" ELSE "") \o T.op \o (IF T.op = "=~" THEN "/" \o T.term \o "/" ELSE T.term)
 
